@@ -11,6 +11,7 @@ package main
 import (
 	"errors"
 	"fmt"
+	"io"
 	"io/fs"
 	"os"
 	"sync"
@@ -334,6 +335,13 @@ func (f *ledgerFile) Read(p []byte) (int, error) {
 		if len(p) > 1 {
 			p = p[:(len(p)+1)/2]
 		}
+	case "eof":
+		// the file ends here (it shrank after it was opened): half of what was asked for, then end of file
+		if len(p) > 1 {
+			n, _ := f.File.Read(p[:len(p)/2])
+			return n, io.EOF
+		}
+		return 0, io.EOF
 	}
 	n, err := f.File.Read(p)
 	return n, err
@@ -351,6 +359,12 @@ func (f *ledgerFile) ReadAt(p []byte, off int64) (int, error) {
 			n, _ := f.File.ReadAt(p[:len(p)/2], off)
 			return n, errInjected
 		}
+	case "eof":
+		if len(p) > 1 {
+			n, _ := f.File.ReadAt(p[:len(p)/2], off)
+			return n, io.EOF
+		}
+		return 0, io.EOF
 	}
 	return f.File.ReadAt(p, off)
 }
